@@ -145,6 +145,11 @@ def build() -> Check:
             err = v.items.get("Error")
             if err is not None and not (isinstance(err, DictVal) and "ErrorMessage" in err.items):
                 bad.append((f"Error is {err.key()[:60]}", t))
+            elif isinstance(err, DictVal):
+                for k_, v_ in err.items.items():
+                    if k_ in ("ErrorMessage", "ErrorType") and not (
+                            (isinstance(v_, Const) and isinstance(v_.value, str)) or (isinstance(v_, Sym) and v_.typ is not None and v_.typ.prim == "str")):
+                        bad.append((f"Error.{k_} is {v_.key()[:60]}, not provably text: a non-string would make the response malformed or not JSON-serialisable", t))
     ck.floor("returning_paths", n_ret, 10)
     ck.ob("R2.well-formed-return", c_w, not bad, (bad[0][0] + ": " + trace_sig(bad[0][1])[-200:]) if bad else f"{n_ret} returning paths")
 
